@@ -96,7 +96,8 @@ type cpGen struct {
 	romData int
 	ramData int
 	sync    bool
-	so      bool // a queue and a stack are attached (shared objects 0 and 1 of the processor)
+	so      bool     // a queue and a stack are attached (shared objects 0 and 1 of the processor)
+	ramCode []string // execmode hy: the instructions of the .ramtext section (label rstart on the first one)
 	kinds   map[string]bool
 	sites   map[string]bool
 }
@@ -391,12 +392,78 @@ func genCP(t *rapid.T, rsize int, movLit bool, name, sec string) *cpGen {
 			g.kinds["rom+data:"+k] = true
 		}
 	}
+	if rapid.IntRange(0, 4).Draw(t, "hybrid") == 0 {
+		genRamCode(t, g, top)
+	}
 	if rapid.IntRange(0, 3).Draw(t, "romsize") == 0 {
 		need := bitsFor(g.exp.Instr + g.romData)
 		g.exp.RomSize = need + rapid.SampledFrom([]int{0, 0, 1, 3}).Draw(t, "romsize_extra")
 		g.kinds["romsize"] = true
 	}
 	return g
+}
+
+// RAM code of a hybrid processor (cpdef … romcode: S, ramcode: S_ram, execmode: hy). Explicit mnemonics only; some
+// opcodes are those of the ROM code (j, jz, rset are always there), some are not; its top register and ports may lie
+// above what the ROM code names: the architecture is the union of both requirement sets.
+var ramForms = []string{"inc %R", "dec %R", "clr %R", "add r0, %R", "add %R, r1", "cpy %R, r0", "cpy r1, %R", "rset %R, 5", "mult r0, %R",
+	"sub %R, r0", "sub r1, %R", "div r0, %R", "cmpr r0, %R", "cmpr %R, r1", "jz %R, rstart"}
+var ramFillers = []string{"inc r0", "dec r1", "clr r0", "add r0, r1", "cpy r1, r0", "nop", "mult r0, r1", "rset r1, 1", "sub r0, r1", "div r0, r1", "cmpr r0, r1", "jz r0, rstart"}
+
+func genRamCode(t *rapid.T, g *cpGen, romTop int) {
+	g.kinds["hy"] = true
+	g.exp.Mode = "hy"
+	rtop := pow2ish(t, 1, 4, "ramreg")
+	if rapid.Bool().Draw(t, "ramreg_low") {
+		rtop = rapid.IntRange(0, 2).Draw(t, "ramreg_small")
+	}
+	var lines []string
+	lines = append(lines, strings.ReplaceAll(rapid.SampledFrom(ramForms).Draw(t, "ramform"), "%R", fmt.Sprintf("r%d", rtop)))
+	g.exp.RamMaxReg = rtop
+	if rtop < 1 {
+		g.exp.RamMaxReg = 1 // the fillers name r0 and r1
+	}
+	if rtop > romTop {
+		g.kinds["hy:ram-reg-above-rom"] = true
+	}
+	if rapid.Bool().Draw(t, "ramin") {
+		k := rapid.SampledFrom([]int{0, 1, 2, 3, 4, 7, 8}).Draw(t, "ramin_k")
+		lines = append(lines, fmt.Sprintf("i2r r0, i%d", k))
+		g.exp.RamMaxIn = k
+		if k > g.exp.MaxIn {
+			g.kinds["hy:ram-in-above-rom"] = true
+		}
+	}
+	if rapid.Bool().Draw(t, "ramout") {
+		k := rapid.SampledFrom([]int{0, 1, 2, 3, 4, 7, 8}).Draw(t, "ramout_k")
+		lines = append(lines, fmt.Sprintf("r2o r1, o%d", k))
+		g.exp.RamMaxOut = k
+		if k > g.exp.MaxOut {
+			g.kinds["hy:ram-out-above-rom"] = true
+		}
+	}
+	want := rapid.SampledFrom([]int{2, 3, 4, 5, 7, 8, 9, 15, 16, 17}).Draw(t, "ramlen")
+	for len(lines)+1 < want {
+		lines = append(lines, rapid.SampledFrom(ramFillers).Draw(t, "ramfiller"))
+	}
+	perm := rapid.Permutation(seqInts(len(lines))).Draw(t, "ramorder")
+	for _, i := range perm {
+		g.ramCode = append(g.ramCode, lines[i])
+	}
+	g.ramCode = append(g.ramCode, "j rstart")
+	g.exp.RamInstr = len(g.ramCode)
+	if k := boundaryKind(g.exp.RamInstr + g.ramData); k != "" {
+		g.kinds["ramcode:"+k] = true
+	}
+	ops := map[string]bool{}
+	for _, l := range g.ramCode {
+		ops[strings.Fields(l)[0]] = true
+	}
+	g.exp.RamOps = sortedSet(ops)
+	// the user's RAM holds the RAM code (and data) the user wrote
+	if g.exp.RamSize >= 0 && g.exp.RamInstr+g.ramData > (1<<uint(g.exp.RamSize)) {
+		g.exp.RamSize = bitsFor(g.exp.RamInstr + g.ramData)
+	}
 }
 
 func seqInts(n int) []int {
@@ -430,6 +497,16 @@ func (g *cpGen) render(b *strings.Builder) {
 		}
 		b.WriteString("%endsection\n")
 	}
+	if len(g.ramCode) > 0 {
+		fmt.Fprintf(b, "%%section %s_ram .ramtext iomode:%s\n\tentry rstart\n", g.sec, mode)
+		for i, l := range g.ramCode {
+			if i == 0 {
+				b.WriteString("rstart:\n")
+			}
+			fmt.Fprintf(b, "\t%s\n", l)
+		}
+		b.WriteString("%endsection\n")
+	}
 	if g.ramData > 0 {
 		fmt.Fprintf(b, "%%section %s_rad .ramdata\n", g.sec)
 		for k := 0; k < g.ramData; k++ {
@@ -441,6 +518,9 @@ func (g *cpGen) render(b *strings.Builder) {
 
 func (g *cpGen) cpdef() string {
 	s := fmt.Sprintf("%%meta cpdef %s romcode: %s", g.name, g.sec)
+	if len(g.ramCode) > 0 {
+		s += fmt.Sprintf(", ramcode: %s_ram, execmode: hy", g.sec)
+	}
 	if g.romData > 0 {
 		s += fmt.Sprintf(", romdata: %s_rod", g.sec)
 	}
